@@ -81,10 +81,14 @@ func (in *c12Inst) Close() {}
 
 const c12User = "alice"
 
+// the two distinct non-empty passwords: a pair that collides under a 32-bit FNV-1a digest (any digest shorter than the
+// one the verified-password cache is keyed by would make them indistinguishable to the cache); "e" is the empty password
+var c12PW = map[string]string{"p": "costarring", "q": "liquid", "e": "", "": ""}
+
 func (in *c12Inst) Enabled() []c12Event {
 	var ev []c12Event
 	if !in.exists {
-		ev = append(ev, c12Event{Op: "create", P: "p"}, c12Event{Op: "create", P: "q"})
+		ev = append(ev, c12Event{Op: "create", P: "p"}, c12Event{Op: "create", P: "q"}, c12Event{Op: "create", P: "e"})
 	} else {
 		ev = append(ev, c12Event{Op: "delete"})
 		if in.disabled {
@@ -95,7 +99,7 @@ func (in *c12Inst) Enabled() []c12Event {
 				ev = append(ev, c12Event{Op: "session"}, c12Event{Op: "onetime"})
 			}
 		}
-		for _, p := range []string{"p", "q"} {
+		for _, p := range []string{"p", "q", "e"} {
 			ev = append(ev, c12Event{Op: "setpw", P: p})
 		}
 	}
@@ -138,7 +142,7 @@ func (in *c12Inst) Apply(e c12Event) map[string]string {
 	}
 	switch e.Op {
 	case "create":
-		u, err := in.a.NewUser(c12User, e.P, base.SetOf("A"))
+		u, err := in.a.NewUser(c12User, c12PW[e.P], base.SetOf("A"))
 		if err == nil {
 			err = in.a.Save(u)
 		}
@@ -157,7 +161,7 @@ func (in *c12Inst) Apply(e c12Event) map[string]string {
 		harness(in.save(func(u User) error { u.SetDisabled(e.Op == "disable"); return nil }))
 		in.disabled = e.Op == "disable"
 	case "setpw":
-		harness(in.save(func(u User) error { return u.SetPassword(e.P) }))
+		harness(in.save(func(u User) error { return u.SetPassword(c12PW[e.P]) }))
 		in.password = e.P
 		in.pwEpoch++
 	case "session", "onetime":
@@ -177,10 +181,15 @@ func (in *c12Inst) Apply(e c12Event) map[string]string {
 		harness(in.a.DeleteSession(in.ctx, in.sessions[e.I].id, c12User))
 		in.sessions[e.I].gone = true
 	case "authpw":
-		u, err := in.a.AuthenticateUser(c12User, e.P)
+		u, err := in.a.AuthenticateUser(c12User, c12PW[e.P])
 		got := err == nil && u != nil
-		want := in.exists && !in.disabled && e.P != "" && e.P == in.password
+		want := in.exists && !in.disabled && c12PW[e.P] != "" && e.P == in.password
 		state := fmt.Sprintf("exists=%v disabled=%v", in.exists, in.disabled)
+		if in.exists && !in.disabled && in.password == "e" && c12PW[e.P] == "" {
+			// a user without a password: the empty password is at once "that user's current password" and "an empty
+			// password"; the statement's two clauses disagree here, so this presentation is not judged
+			want = got
+		}
 		if got && !want {
 			kind := "wrong-password"
 			switch {
@@ -188,7 +197,7 @@ func (in *c12Inst) Apply(e c12Event) map[string]string {
 				kind = "deleted-user"
 			case in.disabled:
 				kind = "disabled-user"
-			case e.P == "":
+			case c12PW[e.P] == "":
 				kind = "empty-password"
 			}
 			viol["C12/password/accepted-"+kind] = fmt.Sprintf("AuthenticateUser(%q, %q) succeeded; current password %q, %s", c12User, e.P, in.password, state)
@@ -201,8 +210,8 @@ func (in *c12Inst) Apply(e c12Event) map[string]string {
 			if u2, _ := in.a.GetUser(c12User); u2 != nil {
 				ui := u2.(*userImpl)
 				if ui.PasswordHash_ != nil {
-					full := bcrypt.CompareHashAndPassword(ui.PasswordHash_, []byte(e.P)) == nil
-					fast := compareHashAndPassword(cachedHashes, ui.PasswordHash_, []byte(e.P))
+					full := bcrypt.CompareHashAndPassword(ui.PasswordHash_, []byte(c12PW[e.P])) == nil
+					fast := compareHashAndPassword(cachedHashes, ui.PasswordHash_, []byte(c12PW[e.P]))
 					if fast && !full {
 						viol["C12/password/fast-path-accepts-what-full-check-rejects"] = fmt.Sprintf("password %q: cached check true, bcrypt false", e.P)
 					}
@@ -337,11 +346,81 @@ func c12OneTimeScenario(t testing.TB, r *vreport.Report, threads int, mix string
 	}}
 }
 
+// ---- (c) one storage fault during the presentation of a one-time session, then a second presentation
+
+type c12FaultCase struct {
+	First  string `json:"first"`  // cookie | onetime
+	Second string `json:"second"` // cookie | onetime
+	At     int    `json:"at"`
+	Mode   int    `json:"mode"`
+}
+
+func c12RunFault(t testing.TB, r *vreport.Report, c c12FaultCase, opsOut *int) {
+	c12Shared(t)
+	vb := vstore.Wrap(c12TB.Bucket)
+	opts := DefaultAuthenticatorOptions(c12Ctx)
+	opts.BcryptCost = bcrypt.MinCost
+	opts.MetaKeys = base.NewMetadataKeys(fmt.Sprintf("c12f%d", c12Serial.Add(1)))
+	a := NewAuthenticator(vb.DefaultDataStore(c12Ctx), nil, opts)
+	u, err := a.NewUser(c12User, "pw", base.SetOf("A"))
+	if err == nil {
+		err = a.Save(u)
+	}
+	if err != nil {
+		t.Fatalf("setup: %v", err)
+	}
+	sess, err := a.CreateSession(c12Ctx, u, time.Hour, true)
+	if err != nil {
+		t.Fatalf("setup session: %v", err)
+	}
+	present := func(kind string) bool {
+		if kind == "cookie" {
+			rq, _ := http.NewRequest("GET", "http://localhost/db/", nil)
+			rq.AddCookie(&http.Cookie{Name: a.SessionCookieName, Value: sess.ID})
+			usr, err := a.AuthenticateCookie(rq, httptest.NewRecorder())
+			return err == nil && usr != nil
+		}
+		usr, err := a.AuthenticateOneTimeSession(c12Ctx, sess.ID)
+		return err == nil && usr != nil
+	}
+	vb.H.Plan = func(seq int, op, key string, write bool) vstore.Injection {
+		if seq == c.At {
+			return vstore.Injection(c.Mode)
+		}
+		return vstore.None
+	}
+	vb.H.Enabled = true
+	first := present(c.First)
+	log := vb.H.Snapshot()
+	vb.H.Enabled = false
+	if opsOut != nil {
+		*opsOut = len(log)
+		return
+	}
+	var ops []string
+	for _, o := range log {
+		ops = append(ops, fmt.Sprintf("%s(%s)%s", o.Op, o.Key, map[bool]string{true: "!" + o.Inject, false: ""}[o.Inject != ""]))
+	}
+	second := present(c.Second)
+	third := present(c.Second)
+	r.Distinct("onetime_fault_outcomes", fmt.Sprintf("%s/%s/%d/%d=%v,%v", c.First, c.Second, c.At, c.Mode, first, second))
+	n := 0
+	for _, b := range []bool{first, second, third} {
+		if b {
+			n++
+		}
+	}
+	if n > 1 {
+		r.Violate(fmt.Sprintf("C12/onetime-fault/authenticated-more-than-once/first=%s/mode=%s", c.First, vstore.Injection(c.Mode)),
+			fmt.Sprintf("one one-time session authenticated %d times: first presentation (%s, storage fault %s at operation %d of [%s]) = %v, later presentations (%s) = %v, %v", n, c.First, vstore.Injection(c.Mode), c.At, strings.Join(ops, " "), first, c.Second, second, third), map[string]any{"kind": "onetime-fault", "case": c})
+	}
+}
+
 func TestVerifC12(t *testing.T) {
 	r := vreport.Begin("C12")
 	defer r.Finish(t)
-	r.Rule("(a) BFS over every history of create(p|q) / delete / disable / enable / set password / create session / create one-time session / delete-or-expire session / authenticate with password p, q, empty / with each cookie / with each one-time id, on the real Authenticator, up to depth D and at most S sessions; canonical state = (user exists, disabled, password, per session: same incarnation, same password epoch, one-time, gone); (b) every schedule (preemption bound B, points at storage operations) of 2-3 concurrent presentations of one one-time session via the cookie path, the one-time path and a mix")
-	r.Assume("session expiry is the bucket deleting the session document (same observable event as logout); arbitrary password strings are represented by two distinct passwords and the empty password; bcrypt cost is the minimum")
+	r.Rule("(a) BFS over every history of create(p|q) / delete / disable / enable / set password / create session / create one-time session / delete-or-expire session / authenticate with password p, q, empty / with each cookie / with each one-time id, on the real Authenticator, up to depth D and at most S sessions; canonical state = (user exists, disabled, password, per session: same incarnation, same password epoch, one-time, gone); (b) every schedule (preemption bound B, points at storage operations) of 2-3 concurrent presentations of one one-time session via the cookie path, the one-time path and a mix; (c) one storage fault (error, CAS mismatch, timeout not applied, timeout applied) at each storage operation of a presentation of a one-time session, followed by two fault-free presentations: at most one of the three may authenticate")
+	r.Assume("session expiry is the bucket deleting the session document (same observable event as logout); arbitrary password strings are represented by two distinct passwords (chosen to collide under a 32-bit FNV-1a digest) and the empty password, which can also be set; bcrypt cost is the minimum")
 	defer func() {
 		if c12TB != nil {
 			c12TB.Close(c12Ctx)
@@ -368,6 +447,15 @@ func TestVerifC12(t *testing.T) {
 		}
 	}
 	var rc c12Replay
+	if r.ReplayKind() == "onetime-fault" {
+		var fc struct {
+			Kind string       `json:"kind"`
+			Case c12FaultCase `json:"case"`
+		}
+		r.Replaying(&fc)
+		c12RunFault(t, r, fc.Case, nil)
+		return
+	}
 	if r.Replaying(&rc) {
 		if rc.Kind == "history" {
 			vstate.ReplayHistory(r, mkA(rc.MaxSess, len(rc.Hist)), rc.Hist)
@@ -386,6 +474,26 @@ func TestVerifC12(t *testing.T) {
 	for _, mix := range []string{"onetime", "cookie", "mixed"} {
 		for _, n := range []int{2, 3} {
 			vsched.Explore(r, mkB(n, mix, bound))
+		}
+	}
+	// (c)
+	fidx := 0
+	for _, first := range []string{"cookie", "onetime"} {
+		nOps := 0
+		c12RunFault(t, r, c12FaultCase{First: first, At: -1}, &nOps)
+		r.Max("onetime_presentation_storage_operations", int64(nOps))
+		for _, second := range []string{"cookie", "onetime"} {
+			for at := 0; at < nOps; at++ {
+				for _, mode := range []vstore.Injection{vstore.ErrBefore, vstore.CasMismatch, vstore.TimeoutBefore, vstore.TimeoutAfter} {
+					fidx++
+					if !r.Mine(fidx) {
+						continue
+					}
+					c12RunFault(t, r, c12FaultCase{First: first, Second: second, At: at, Mode: int(mode)}, nil)
+					r.Add("onetime_fault_cases", 1)
+					r.Add("evaluations", 1)
+				}
+			}
 		}
 	}
 	vstate.Explore(r, mkA(sess, depth))
